@@ -107,6 +107,34 @@ def ompTaskPinned (collapseSet : Bool) (v : TaskState → Bool) : Prog TaskState
 def ompTaskFixed (collapseSet : Bool) (v : TaskState → Bool) : Prog TaskState :=
   ompTaskPinned collapseSet (fun s => v s && !collapseSet)
 
+/-! ## AlgTrans / LFRicAlgTrans: one nested `RaisePSyIR2…AlgTrans.apply` per `call invoke(...)` -/
+
+/-- a nested transformation: its validate and its (non-raising) mutation -/
+structure Step (S : Type) where
+  valid : S → Bool
+  mutate : S → S
+
+def Step.prog {S : Type} (t : Step S) : Prog S := validateThen t.valid (.prim t.mutate .done)
+
+/-- `for call in invokes: nested.apply(call)` -/
+def seqCalls {S : Type} : List (Step S) → Prog S
+  | [] => .done
+  | t :: rest => .call (fun _ => t.prog) (seqCalls rest)
+
+/-- pinned: `validate` only looks at the root node. -/
+def algTransPinned {S : Type} (v : S → Bool) (invokes : List (Step S)) : Prog S :=
+  validateThen v (seqCalls invokes)
+
+/-- fixed (`fixes/C26-algtrans-validate-all-invokes.patch`): `validate` also validates every invoke. -/
+def algTransFixed {S : Type} (v : S → Bool) (invokes : List (Step S)) : Prog S :=
+  validateThen (fun s => v s && invokes.all (fun t => t.valid s)) (seqCalls invokes)
+
+/-- two invokes, each either still a generic call or raised -/
+structure AlgState where
+  first : Bool
+  second : Bool
+  deriving DecidableEq, Repr
+
 /-! ## ArrayReductionBaseTrans (Sum2LoopTrans, Product2LoopTrans, Maxval2LoopTrans, Minval2LoopTrans) -/
 
 structure RedState where
